@@ -62,8 +62,9 @@ def main():
         finally:
             sh("git -C /repo checkout -- . && git -C /repo clean -fdq src codegen")
     meta["detected_by"] = [c for c, r in meta["checks"].items() if isinstance(r, dict) and r.get("rc") == 1]
+    meta["check_errors"] = [c for c, r in meta["checks"].items() if isinstance(r, dict) and r.get("rc") not in (0, 1)]
     json.dump(meta, open(os.path.join(out, "meta.json"), "w"), indent=1)
-    print(json.dumps({"seed": sid, "confirmed": meta.get("confirmed"), "detected_by": meta["detected_by"],
+    print(json.dumps({"seed": sid, "confirmed": meta.get("confirmed"), "detected_by": meta["detected_by"], "check_errors": meta["check_errors"],
                       "checks": {c: (r.get("rc"), r.get("lines", [])[:1]) for c, r in meta["checks"].items() if isinstance(r, dict)}}, indent=1))
 
 
